@@ -165,9 +165,13 @@ def main(argv=None):
       args.pid, args.tier, limit))
     sys.stdout.flush()
     os._exit(2)
-  wd = threading.Timer(limit, give_up)
-  wd.daemon = True
-  wd.start()
+  # (a raw thread: the threading module's count of threads stays what a user's process would see)
+  import _thread, time as _time
+
+  def watchdog():
+    _time.sleep(limit)
+    give_up()
+  _thread.start_new_thread(watchdog, ())
   seed = common.seed_value()
   timer = common.Timer()
   common.use_repo()
